@@ -107,7 +107,13 @@ pub async fn publish_handler(w: Rc<World>, conn: usize, p: v5::Publish, route: &
     };
     w.gate_exit(gid, outcome.clone());
     match outcome {
-        Outcome::Ok => Ok(p.ack()),
+        Outcome::Ok => Ok(match w.ack_props.get() {
+            Some((u, r)) => p
+                .ack()
+                .properties(|ps| ps.push((ByteString::from("k"), ByteString::from("v".repeat(u as usize)))))
+                .reason(ByteString::from("r".repeat(r as usize))),
+            None => p.ack(),
+        }),
         // an application refuses a publish in one of two styles: an error that `TryFrom<E> for PublishAck`
         // maps to the negative acknowledgement, or (QoS 1/2 only) Ok with an acknowledgement carrying the code
         Outcome::Neg(c) if gid % 2 == 1 && p.packet().packet_id.is_some() => match codec::PublishAckReason::try_from(c) {
